@@ -265,12 +265,12 @@ func ruleOverride(c *Ctx) {
 			ret := false
 			for _, ref := range *errv.Referrers() {
 				if r, ok := ref.(*ssa.Return); ok {
-					for _, pc := range pathConds(r.Block()) {
-						if call, ok := pc.cond.(*ssa.Call); ok && calleeName(&call.Call) == "errors.Is" && !pc.side {
-							ret = true
-						}
-						if u, ok := pc.cond.(*ssa.UnOp); ok && u.Op == token.NOT {
-							if call, ok := u.X.(*ssa.Call); ok && calleeName(&call.Call) == "errors.Is" && pc.side {
+					// the sentinel test may be wrapped in a helper (`isFlagOmitted(err)`): resolve the condition to errors.Is(err, ...)
+					tr := c.plainTracer()
+					for _, g := range guardsOf(r.Block(), lval{nil, fn, nil}) {
+						gl := tr.trace(g.cond)
+						if call, ok := gl.v.(*ssa.Call); ok && calleeName(&call.Call) == "errors.Is" && !g.want {
+							if e := tr.trace(gl.with(call.Call.Args[0])); len(e.chain) == 0 && e.v == errv {
 								ret = true
 							}
 						}
